@@ -165,6 +165,7 @@ pub fn property() -> Property {
         id: "C13",
         rule: "Lines over a 40-atom alphabet (keywords, identifiers incl. keyword-containing ones, numerals incl. spaced and dotted, one- and two-character operators incl. spaced, quotes, strings with multi-byte text, blanks, tabs, multi-byte and illegal characters): all atom strings up to length 3 (quick) / 5 (thorough) exhaustively, random ones up to length 40, every line of the repo's programs and test sources, and raw printable/Unicode text. Oracle: ranges in bounds, on char boundaries, ordered, disjoint, only blanks between them, starting/ending on non-blanks (REM to end of line, DATA to end of line or colon), and tokenizing each range's text alone yields exactly that token; on failure the error start is in the line, on a char boundary, and the prefix tokenizes to exactly the tokens reported before the error. Non-trivial: a tokenizable line with >= 3 tokens and a blank or multi-byte character inside or adjacent to a token; distinct by text.",
         assumptions: vec!["the hook tokenize_with_ranges iterates the real Tokenizer with skip_bytes=0 and reports TokenizationError::string_range"],
+        fuzz: Some(FuzzSpec { target: "c13_ranges", runs: 2_000_000, max_len: 256, verdict: crate::fuzz::c13_verdict }),
         families,
         prelude: None,
         epilogue: None,
